@@ -276,6 +276,17 @@ class _ExprCanon(ast.NodeTransformer):
             return simplify_test(node)
         return node
 
+    def visit_Compare(self, node: ast.Compare):
+        self.generic_visit(node)
+        # D.get(K, SENTINEL) is SENTINEL  ->  K not in D      (SENTINEL: a NAME_IN_CAPS the mapping cannot hold)
+        if len(node.ops) == 1 and isinstance(node.ops[0], (ast.Is, ast.IsNot)) and isinstance(node.comparators[0], ast.Name):
+            c, sname = node.left, node.comparators[0].id
+            if sname.upper() == sname and isinstance(c, ast.Call) and isinstance(c.func, ast.Attribute) and c.func.attr == "get" and len(c.args) == 2 and not c.keywords \
+                    and isinstance(c.args[1], ast.Name) and c.args[1].id == sname and is_pure(c.func.value) and is_pure(c.args[0]):
+                op = ast.NotIn() if isinstance(node.ops[0], ast.Is) else ast.In()
+                return _loc(ast.Compare(left=c.args[0], ops=[op], comparators=[c.func.value]), node)
+        return node
+
     @staticmethod
     def _iter_children(it: ast.expr) -> ast.expr:
         """`x._children or ()` / `x._children or []` as an iterated expression is the `children` property."""
@@ -684,6 +695,17 @@ class BlockCanon:
                     stmts.pop()
                     i = max(0, i - 1)  # the new last statement now is in tail position
                     continue
+            # `T = n = E` / `n = T = E` (n a plain name the other target does not mention)  ->  n = E; T = n
+            if enabled("C2") and isinstance(st, ast.Assign) and len(st.targets) == 2 and any(isinstance(t, ast.Name) for t in st.targets):
+                nt = next(t for t in st.targets if isinstance(t, ast.Name))
+                ot = next(t for t in st.targets if t is not nt)
+                if not any(isinstance(x, ast.Name) and x.id == nt.id for x in ast.walk(ot)) and not any(isinstance(x, ast.Name) and x.id == nt.id for x in ast.walk(st.value)) \
+                        and not (isinstance(ot, ast.Name) and isinstance(st.value, ast.Constant)):
+                    self.changed = True
+                    first = _loc(ast.Assign(targets=[nt], value=st.value), st)
+                    second = _loc(ast.Assign(targets=[ot], value=copy.deepcopy(st.value) if isinstance(st.value, ast.Constant) else _loc(ast.Name(id=nt.id, ctx=ast.Load()), st)), st)
+                    stmts[i : i + 1] = [first, second]  # type: ignore[list-item]
+                    continue
             # `a, b = x, y` with plain targets that none of the right-hand sides reads -> two assignments
             if enabled("C2") and isinstance(st, ast.Assign) and len(st.targets) == 1 and isinstance(st.targets[0], ast.Tuple) and isinstance(st.value, ast.Tuple) \
                     and len(st.targets[0].elts) == len(st.value.elts) and all(isinstance(t, ast.Name) for t in st.targets[0].elts):
@@ -790,6 +812,9 @@ class BlockCanon:
             return None
         lp = st.body[0]
         it, copied = lp.iter, False
+        wrap = None
+        if isinstance(it, ast.Call) and isinstance(it.func, ast.Name) and it.func.id in ("enumerate", "reversed") and it.args and not it.keywords:
+            wrap, it = it, it.args[0]
         if isinstance(it, ast.Subscript) and isinstance(it.slice, ast.Slice) and it.slice.lower is None and it.slice.upper is None and it.slice.step is None:
             it, copied = it.value, True
         elif isinstance(it, ast.Call) and isinstance(it.func, ast.Attribute) and it.func.attr == "copy" and not it.args:
@@ -801,7 +826,10 @@ class BlockCanon:
         new_it: ast.expr = _loc(ast.Attribute(value=it.value, attr="children", ctx=ast.Load()), lp.iter)
         if copied:
             new_it = _loc(ast.Call(func=_loc(ast.Attribute(value=new_it, attr="copy", ctx=ast.Load()), lp.iter), args=[], keywords=[]), lp.iter)
-        lp.iter = new_it
+        if wrap is not None:
+            wrap.args[0] = new_it
+        else:
+            lp.iter = new_it
         if rest:
             cond = rest[0] if len(rest) == 1 else _loc(ast.BoolOp(op=ast.And(), values=list(rest)), st.test)
             return _loc(ast.If(test=cond, body=[lp], orelse=[]), st)
@@ -1586,6 +1614,13 @@ def _tail_to(block: List[ast.stmt], make, depth: int = 0) -> Optional[List[ast.s
             new = ast.If(test=st.test, body=arms[0] or [ast.Pass()], orelse=arms[1])
             out.append(_loc(new, st))  # type: ignore[arg-type]
             return out
+        if isinstance(st, ast.With) and i == len(block) - 1 and _returns([st]):
+            # `with cm: ...; return e` as the last statement: the value is computed inside the region either way
+            nb = _tail_to(list(st.body), make, depth + 1)
+            if nb is None:
+                return None
+            out.append(_loc(ast.With(items=st.items, body=nb or [ast.Pass()]), st))  # type: ignore[arg-type]
+            return out
         if _returns([st]) and not isinstance(st, FuncNode):
             return None  # return inside a loop / with / try
         out.append(st)
@@ -1987,6 +2022,8 @@ def _all_paths_assign(block: List[ast.stmt]) -> bool:
         return True
     if isinstance(last, ast.If):
         return bool(last.orelse) and _all_paths_assign(last.body) and _all_paths_assign(last.orelse)
+    if isinstance(last, ast.With):
+        return _all_paths_assign(last.body)
     return False
 
 
